@@ -40,10 +40,10 @@ def outcome(fut):
 
 def run_download(kind, size, thr, chunk, io, nd=(), stream_faults=(), attempts=3, short_reads=False,
                  fault_at=-1, fault_phase=0, faultable=None, prev=False, subs=2, provide_size=False,
-                 executor_cls=NonThreadedExecutor, extra_args=None, cfg_kw=None, before_wait=None):
+                 executor_cls=NonThreadedExecutor, extra_args=None, cfg_kw=None, before_wait=None, fault_at2=-1):
     """one download through the real TransferManager; kind in seekable|stream|path|special"""
     c = Ctx()
-    env = c.env = F.Env(fault_at, fault_phase, F.Nondet(nd), faultable)
+    env = c.env = F.Env(fault_at, fault_phase, F.Nondet(nd), faultable, fault_at2=fault_at2)
     s3 = c.s3 = F.FakeS3(env, size=size, short_reads=short_reads, stream_faults=stream_faults)
     kw = dict(multipart_threshold=thr, multipart_chunksize=chunk, io_chunksize=io, num_download_attempts=attempts)
     kw.update(cfg_kw or {})
